@@ -111,3 +111,47 @@ Qed.
 Theorem compat_sound_same_kind : forall a b, same_kind a b -> compat a b = Ok tt ->
   forall v, in_setb (erase a) v = true -> in_setb (erase b) v = true.
 Proof. intros a b HK HC. apply widens_value_sets, compat_only_if_nested; assumption. Qed.
+
+(* ------------------------------------------------------------------ bool (repaired: validate instead of __call__) *)
+Definition accepts (b : xt) (v : pyval) : Prop := exists r, dt_validate (erase b) v PNone = Ok r.
+
+(* BoolType against ANY other type: passes only if both values of a bool are valid for the other type *)
+Theorem compat_bool_sound : forall b v, compat XBool b = Ok tt -> in_setb (erase XBool) v = true -> accepts b v.
+Proof.
+  intros b v HC HV. cbn in HV. destruct v as [| x | | | | | | | | |]; try discriminate.
+  cbn [compat] in HC. unfold vboth in HC. apply bind_ok in HC as (r1 & H1 & HC). apply bind_ok in HC as (r2 & H2 & _).
+  destruct x; [exists r2|exists r1]; assumption.
+Qed.
+Theorem compat_bool_complete : forall b, accepts b (PBool false) -> accepts b (PBool true) -> compat XBool b = Ok tt.
+Proof. intros b [r1 H1] [r2 H2]. cbn [compat]. unfold vboth. rewrite H1, H2. reflexivity. Qed.
+
+(* IntRange against BoolType (repaired: return after the loop): passes exactly when the range lies in {0, 1} *)
+Lemma bool_call_int_ok z : (z = 0 \/ z = 1)%Z -> exists r, bool_call (PInt z) = Ok r.
+Proof. intros [-> | ->]; eexists; reflexivity. Qed.
+Lemma bool_call_int_err z : z <> 0%Z -> z <> 1%Z -> bool_call (PInt z) = Err EWrongType.
+Proof. intros H0 H1. destruct z as [|[p|p|]|p]; try reflexivity; contradiction. Qed.
+
+Theorem compat_int_bool_iff : forall mn mx, (mn <= mx)%Z ->
+  (compat (XInt mn mx) XBool = Ok tt <-> (0 <= mn /\ mx <= 1)%Z).
+Proof.
+  intros mn mx Hle. split.
+  - cbn [compat erase]. intros H.
+    assert (St : forall f i, int_loop TBool (S f) i mx = if (mx <? i)%Z then Ok tt else bool_call (PInt i) >>= fun _ => int_loop TBool f (i + 1) mx)
+      by reflexivity.
+    rewrite St in H. destruct (mx <? mn)%Z eqn:C0; [apply Z.ltb_lt in C0; lia|].
+    destruct (Z.eq_dec mn 0) as [->|N0]; [|destruct (Z.eq_dec mn 1) as [->|N1]; [|rewrite (bool_call_int_err mn N0 N1) in H; discriminate]].
+    + cbn in H. destruct (mx <? 1)%Z eqn:C1; [apply Z.ltb_lt in C1; lia|].
+      destruct (mx <? 2)%Z eqn:C2; [apply Z.ltb_lt in C2; lia|discriminate].
+    + cbn in H. destruct (mx <? 2)%Z eqn:C1; [apply Z.ltb_lt in C1; lia|discriminate].
+  - intros [H0 H1].
+    assert ((mn = 0 /\ mx = 0) \/ (mn = 0 /\ mx = 1) \/ (mn = 1 /\ mx = 1))%Z as [[-> ->]|[[-> ->]|[-> ->]]] by lia;
+      reflexivity.
+Qed.
+
+Theorem compat_int_bool_sound : forall mn mx z, (mn <= mx)%Z -> compat (XInt mn mx) XBool = Ok tt ->
+  in_setb (erase (XInt mn mx)) (PInt z) = true -> accepts XBool (PInt z).
+Proof.
+  intros mn mx z Hle HC HV. apply (compat_int_bool_iff mn mx Hle) in HC. cbn in HV.
+  apply andb_true_iff in HV as [H1 H2]. apply Z.leb_le in H1, H2.
+  unfold accepts. cbn [erase dt_validate]. apply bool_call_int_ok. lia.
+Qed.
